@@ -198,5 +198,17 @@ def determinism_document():
     params = [{"name": "order", "in": "query", "schema": {"oneOf": consts[:4]}},
               {"name": "thing", "in": "query", "schema": {"oneOf": [{"$ref": "#/components/schemas/Color"}, {"$ref": "#/components/schemas/Level"}]}}]
     paths = {"/sort": {"post": {"operationId": "sort", "parameters": params, "responses": ok,
-                                "requestBody": {"content": {"application/json": {"schema": {"$ref": "#/components/schemas/SortRequest"}}}}}}}
+                                "requestBody": {"content": {"application/json": {"schema": {"$ref": "#/components/schemas/SortRequest"}}}}},
+                       # several tags: the FIRST one names the package of the module; several request media types, several
+                       # security schemes and many parameters: further places where a set could be iterated
+                       "get": {"operationId": "list_sorted", "tags": ["pets", "store", "animals", "zoo", "admin"],
+                               "parameters": params + [{"name": f"p{i}", "in": loc, "schema": s} for i, loc in
+                                                       enumerate(["query", "header", "cookie", "query", "header"])],
+                               "responses": ok},
+                       "put": {"operationId": "replace_sorted", "tags": ["store", "pets"], "responses": ok,
+                               "requestBody": {"content": {
+                                   "application/json": {"schema": {"$ref": "#/components/schemas/A"}},
+                                   "application/x-www-form-urlencoded": {"schema": {"$ref": "#/components/schemas/B"}},
+                                   "multipart/form-data": {"schema": {"$ref": "#/components/schemas/C"}},
+                                   "application/octet-stream": {"schema": {"type": "string", "format": "binary"}}}}}}}
     return {"openapi": "3.1.0", "info": {"title": "det", "version": "1"}, "paths": paths, "components": {"schemas": schemas}}
